@@ -1,0 +1,37 @@
+//go:build verif
+
+package openflow13
+
+// Accessors used only by the external verification harness (build tag "verif").
+// Add-only: nothing here changes the behaviour of the package.
+
+// VerifRegistryNames returns the names registered in the match-field registry.
+func VerifRegistryNames() []string {
+	names := make([]string, 0, len(oxxFieldHeaderMap))
+	for k := range oxxFieldHeaderMap {
+		names = append(names, k)
+	}
+	return names
+}
+
+// VerifRegistryEntry returns class, field and width of the stored registry entry.
+func VerifRegistryEntry(name string) (class uint16, field uint8, length uint8, hasMask bool, ok bool) {
+	e, found := oxxFieldHeaderMap[name]
+	if !found {
+		return 0, 0, 0, false, false
+	}
+	return e.Class, e.Field, e.Length, e.HasMask, true
+}
+
+func VerifEncodeOfsNbits(ofs uint16, nBits uint16) uint16 { return encodeOfsNbits(ofs, nBits) }
+func VerifEncodeOfsNbitsStartEnd(start uint16, end uint16) uint16 {
+	return encodeOfsNbitsStartEnd(start, end)
+}
+func VerifDecodeOfs(w uint16) uint16   { return decodeOfs(w) }
+func VerifDecodeNbits(w uint16) uint16 { return decodeNbits(w) }
+
+// VerifCTStates exposes the two words of a connection-tracking state builder.
+func VerifCTStates(s *CTStates) (data uint32, mask uint32) { return s.data, s.mask }
+
+// VerifSetCTStates puts a builder into a given state.
+func VerifSetCTStates(s *CTStates, data uint32, mask uint32) { s.data, s.mask = data, mask }
